@@ -119,7 +119,11 @@ def base_tensor_dims(name, dims, requires_grad=False, origin='arg', dtype='in'):
 
 
 def cells_equal(a, b):
-    return canon_cell(a) == canon_cell(b)
+    if canon_cell(a) == canon_cell(b):
+        return True
+    # slow path, only on a mismatch: the same operator may distribute a scalar differently over its axis tables
+    from .domain import canon_cell_scaled
+    return canon_cell_scaled(a) == canon_cell_scaled(b)
 
 
 def expected_cell(base, bchan, tables, coef=1):
